@@ -680,7 +680,7 @@ ERROR_REPLAYS = {"1d.": (replay_1d, {"nl": 2, "nr": 3, "refine": 1}), "bsta1d": 
 
 
 def main(tier):
-    bounds = {"histories_and_variants": 'one history per stateful object: another chain (other model, other copula) built and, for the 1-d adapted tree, sampled on the same grid first (2-d copula chain 3x3; adapted tree 2+2 points)',
+    bounds = {"histories_and_variants": 'one history per stateful object: another chain (other model, other copula) built and, for the 1-d adapted tree, sampled on the same grid first (2-d copula chain 3x3; adapted tree 2+2 points); 3-d copula chain (3x3x3) also in the quick tier',
               "quick": "1-d grids up to 2+2 points and 1 refinement; 2-d copula chain 3x3; finite/infinite activity and variation flavours",
               "thorough": "1-d grids up to 3+3 points, up to 2 refinements; 2-d 5x5, 3-d 3x3x3",
               "grids": "any strictly increasing axis with 0 at the pivot and -h/+h as its neighbours (what every constructor returns, C13); "
